@@ -89,7 +89,9 @@ Theorem refine2_y (dx dy sx sy n2 : nat) (c : list (list K)) (ny nx x y : nat) :
   (y / sy + 3 < n2)%nat -> (y / (2 * sy) + 3 < ny)%nat -> (x / sx + 3 < nx)%nat ->
   pow2 dy * ev2_at dx dy sx sy (along_y2 (drop_keep K n2) c) y x = ev2_at dx dy sx (2 * sy) c y x.
 Proof.
-  intros Hc Hs H1 Hn R2 R1 Rx. unfold ev2_at. rewrite !spl_f_swap. rewrite spl_f_scale.
+  intros Hc Hs H1 Hn R2 R1 Rx. unfold ev2_at.
+  rewrite (spl_f_swap (wrow dy sy (y mod sy)) (wrow dx sx (x mod sx))).
+  rewrite (spl_f_swap (wrow dy (2 * sy) (y mod (2 * sy))) (wrow dx sx (x mod sx))). rewrite spl_f_scale.
   apply (spl_f_ext K). intros k Hk.
   transitivity (pow2 dy * spl_f (wrow dy sy (y mod sy))
                   (fun j => nth j (drop_keep K n2 (map (fun j' => at2 c j' (x / sx + k)) (seq 0 ny))) 0) (y / sy)).
@@ -180,5 +182,92 @@ Proof.
     apply (at3_along_z3_gen (drop_keep K n2) c nz ny nx n2); try assumption; try lia.
     intros l Hl. apply (length_drop_keep n2 nz); assumption.
   - apply refine_line; assumption.
+Qed.
+
+(* ---- in terms of BSplineTransform.grid_ (refine1) and the control grid sizes ---- *)
+Ltac Zify.zify_post_hook ::= Z.to_euclidean_division_equations.
+
+Lemma ctrl_refine_fits_nat (s m : nat) : (1 <= s)%nat -> (1 <= m)%nat ->
+  (ctrl_size (2 * m - 1) s <= 2 * ctrl_size m s - 2)%nat /\ (1 <= ctrl_size m s)%nat.
+Proof.
+  intros Hs Hm.
+  pose proof (ctrl_size_ge4 (Z.of_nat m) (Z.of_nat s) ltac:(lia) ltac:(lia)) as G.
+  pose proof (ctrl_size_nat m s Hm Hs) as Em. pose proof (ctrl_size_nat (2 * m - 1) s ltac:(lia) Hs) as E2.
+  pose proof (refine_size_fits (Z.of_nat m) (Z.of_nat s) ltac:(lia) ltac:(lia)) as F.
+  replace (Z.of_nat (2 * m - 1)) with (2 * Z.of_nat m - 1)%Z in E2 by lia. lia.
+Qed.
+
+Lemma refine1_fun (s m : nat) : (1 <= s)%nat -> (1 <= m)%nat ->
+  forall l, refine1 s m l = drop_keep K (ctrl_size (2 * m - 1) s) l.
+Proof. intros Hs Hm l. apply refine1_is_drop_keep; assumption. Qed.
+
+Lemma along_x2_ext (f g : list K -> list K) c : (forall l, f l = g l) -> along_x2 f c = along_x2 g c.
+Proof. intro H. unfold along_x2. apply map_ext. exact H. Qed.
+Lemma along_y2_ext (f g : list K -> list K) c : (forall l, f l = g l) -> along_y2 f c = along_y2 g c.
+Proof.
+  intro H. unfold along_y2.
+  assert (E : map (fun i => f (map (fun r => nth i r 0) c)) (seq 0 (length (nth 0 c []))) =
+              map (fun i => g (map (fun r => nth i r 0) c)) (seq 0 (length (nth 0 c [])))) by (apply map_ext; intro; apply H).
+  rewrite E. reflexivity.
+Qed.
+Lemma along_x3_ext (f g : list K -> list K) c : (forall l, f l = g l) -> along_x3 f c = along_x3 g c.
+Proof. intro H. unfold along_x3. apply map_ext. intro. apply map_ext. exact H. Qed.
+Lemma along_y3_ext (f g : list K -> list K) c : (forall l, f l = g l) -> along_y3 f c = along_y3 g c.
+Proof. intro H. unfold along_y3. apply map_ext. intro. apply along_y2_ext. exact H. Qed.
+Lemma along_z3_ext (f g : list K -> list K) c : (forall l, f l = g l) -> along_z3 f c = along_z3 g c.
+Proof.
+  intro H. unfold along_z3.
+  set (ny := length (nth 0 c [])). set (nx := length (nth 0 (nth 0 c []) [])).
+  assert (E : map (fun j => map (fun i => f (map (fun pl => at2 pl j i) c)) (seq 0 nx)) (seq 0 ny) =
+              map (fun j => map (fun i => g (map (fun pl => at2 pl j i) c)) (seq 0 nx)) (seq 0 ny)).
+  { apply map_ext. intro. apply map_ext. intro. apply H. }
+  rewrite E. reflexivity.
+Qed.
+
+(* D = 2: image grid (mx, my), strides (sx, sy), coefficients of shape ctrl_size my sy x ctrl_size mx sx *)
+Theorem ffd_refine_2d (dx dy sx sy mx my : nat) (c : list (list K)) (x y : nat) :
+  (1 <= sx)%nat -> (1 <= sy)%nat -> (1 <= mx)%nat -> (1 <= my)%nat -> rect (ctrl_size my sy) (ctrl_size mx sx) c ->
+  ((x < 2 * mx - 1)%nat -> (y < my)%nat ->
+     pow2 dx * ev2_at dx dy sx sy (along_x2 (refine1 sx mx) c) y x = ev2_at dx dy (2 * sx) sy c y x) /\
+  ((x < mx)%nat -> (y < 2 * my - 1)%nat ->
+     pow2 dy * ev2_at dx dy sx sy (along_y2 (refine1 sy my) c) y x = ev2_at dx dy sx (2 * sy) c y x).
+Proof.
+  intros Hsx Hsy Hmx Hmy Hc. split; intros Hx Hy.
+  - rewrite (along_x2_ext _ _ c (refine1_fun sx mx Hsx Hmx)).
+    pose proof (refine_ranges sx mx 1 x Hsx Hmx ltac:(lia) ltac:(lia)) as [R2 R1]. rewrite !Nat.mul_1_l in *.
+    apply (refine2_x dx dy sx sy _ c (ctrl_size my sy) (ctrl_size mx sx)); try assumption.
+    apply ctrl_nat_in_range; assumption.
+  - rewrite (along_y2_ext _ _ c (refine1_fun sy my Hsy Hmy)).
+    pose proof (refine_ranges sy my 1 y Hsy Hmy ltac:(lia) ltac:(lia)) as [R2 R1]. rewrite !Nat.mul_1_l in *.
+    destruct (ctrl_refine_fits_nat sy my Hsy Hmy) as [F1 F2].
+    apply (refine2_y dx dy sx sy _ c (ctrl_size my sy) (ctrl_size mx sx)); try assumption.
+    apply ctrl_nat_in_range; assumption.
+Qed.
+
+Theorem ffd_refine_3d (dx dy dz sx sy sz mx my mz : nat) (c : list (list (list K))) (x y z : nat) :
+  (1 <= sx)%nat -> (1 <= sy)%nat -> (1 <= sz)%nat -> (1 <= mx)%nat -> (1 <= my)%nat -> (1 <= mz)%nat ->
+  box (ctrl_size mz sz) (ctrl_size my sy) (ctrl_size mx sx) c ->
+  ((x < 2 * mx - 1)%nat -> (y < my)%nat -> (z < mz)%nat ->
+     pow2 dx * ev3_at dx dy dz sx sy sz (along_x3 (refine1 sx mx) c) z y x = ev3_at dx dy dz (2 * sx) sy sz c z y x) /\
+  ((x < mx)%nat -> (y < 2 * my - 1)%nat -> (z < mz)%nat ->
+     pow2 dy * ev3_at dx dy dz sx sy sz (along_y3 (refine1 sy my) c) z y x = ev3_at dx dy dz sx (2 * sy) sz c z y x) /\
+  ((x < mx)%nat -> (y < my)%nat -> (z < 2 * mz - 1)%nat ->
+     pow2 dz * ev3_at dx dy dz sx sy sz (along_z3 (refine1 sz mz) c) z y x = ev3_at dx dy dz sx sy (2 * sz) c z y x).
+Proof.
+  intros Hsx Hsy Hsz Hmx Hmy Hmz Hc. split; [|split]; intros Hx Hy Hz.
+  - rewrite (along_x3_ext _ _ c (refine1_fun sx mx Hsx Hmx)).
+    pose proof (refine_ranges sx mx 1 x Hsx Hmx ltac:(lia) ltac:(lia)) as [R2 R1]. rewrite !Nat.mul_1_l in *.
+    apply (refine3_x dx dy dz sx sy sz _ c (ctrl_size mz sz) (ctrl_size my sy) (ctrl_size mx sx)); try assumption;
+    apply ctrl_nat_in_range; assumption.
+  - rewrite (along_y3_ext _ _ c (refine1_fun sy my Hsy Hmy)).
+    pose proof (refine_ranges sy my 1 y Hsy Hmy ltac:(lia) ltac:(lia)) as [R2 R1]. rewrite !Nat.mul_1_l in *.
+    destruct (ctrl_refine_fits_nat sy my Hsy Hmy) as [F1 F2].
+    apply (refine3_y dx dy dz sx sy sz _ c (ctrl_size mz sz) (ctrl_size my sy) (ctrl_size mx sx)); try assumption;
+    apply ctrl_nat_in_range; assumption.
+  - rewrite (along_z3_ext _ _ c (refine1_fun sz mz Hsz Hmz)).
+    pose proof (refine_ranges sz mz 1 z Hsz Hmz ltac:(lia) ltac:(lia)) as [R2 R1]. rewrite !Nat.mul_1_l in *.
+    destruct (ctrl_refine_fits_nat sz mz Hsz Hmz) as [F1 F2].
+    apply (refine3_z dx dy dz sx sy sz _ c (ctrl_size mz sz) (ctrl_size my sy) (ctrl_size mx sx)); try assumption;
+    apply ctrl_nat_in_range; assumption.
 Qed.
 End Proofs.
